@@ -18,6 +18,9 @@ EXPLANATION = (
     "R1m: listed pairs of transcript components (opened columns vs the encoding of the opening / well-formedness "
     "vector, leaf index vs transcript-derived index, commitment vs witness, ...) meet in a comparison whose result "
     "reaches the outcome - liveness of each alone does not show they are checked against each other. "
+    "R4c: a for loop driven by a zip of a vector *field* of the proof with something that is not proof-derived "
+    "must be length-guarded or the vector must also be accessed by position (bounds-checked): otherwise the proof "
+    "decides how many of the expected positions are checked at all. "
     "These are necessary conditions of C03's shape clauses (empty or truncated proof lists, stretched vectors, "
     "foreign authentication paths); the cryptographic infeasibility of forging is out of reach of this technique.")
 # pairs of transcript components the verifier must compare with each other (anchor key -> [(name, A, B)])
@@ -98,6 +101,8 @@ def run(rep, ctx, tier):
             ok, detail, where = R1M.check(ctx, a, A, B)
             rep.add("R1m", "%s:meet:%s" % (a.key, name), ok, "%s: %s" % (name, detail), where)
         zips += R4.run_zip(rep, ctx, a, "R4a")
+        padts = {e[0] for e in a.info["proof"]}
+        rep.count("loop_zips_over_proof_vectors", R4.run_loopzip(rep, ctx, a, padts, "R4c"))
         if a.info.get("adt") == "linear_codes::LinearCodePCS":
             n = R4.run_encode(rep, ctx, a, "R4b")
             if n == 0:
